@@ -1192,6 +1192,11 @@ func (ex *Exec) checkRespondFrom(st *State, fr *Frame, ct *Contract, names map[s
 // onEventDiscipline: "no-graph-write-while-walking" - a call that needs the graph's write lock while an
 // ancestor walker of this goroutine may still hold its read lock.
 func (ex *Exec) onEventDiscipline(st *State, ev *Event) {
+	if ex.entryCt != nil && ev.Kind == "go" {
+		if props, ok := ex.entryCt.Discipline["goroutines-own-their-loop-variables"]; ok {
+			ex.checkLoopVarCapture(st, ev, props)
+		}
+	}
 	if ex.entryCt == nil || len(st.Open) == 0 {
 		return
 	}
@@ -1340,3 +1345,51 @@ func (ex *Exec) noteHit(tc *Temporal) {
 
 // AssumedClauses: postconditions declared `assumes` that this run relied upon.
 var AssumedClauses = map[string]bool{}
+
+// checkLoopVarCapture: discipline "goroutines-own-their-loop-variables". Under the per-loop variable semantics of the
+// language version this module declares (go < 1.22), a closure started with `go` inside a loop that captures a variable
+// which the loop assigns on every iteration reads whatever the variable holds when the goroutine finally runs. In SSA
+// such a variable is an Alloc outside the loop body that the body stores to and the closure binds.
+func (ex *Exec) checkLoopVarCapture(st *State, ev *Event, props []string) {
+	g, ok := ev.Instr.(*ssa.Go)
+	if !ok {
+		return
+	}
+	mc, ok := g.Call.Value.(*ssa.MakeClosure)
+	if !ok {
+		return
+	}
+	fn := g.Parent()
+	var inner *Loop
+	for _, lp := range ex.loopInfo(fn).Loops {
+		if lp.Body[g.Block()] && (inner == nil || len(lp.Body) < len(inner.Body)) {
+			inner = lp
+		}
+	}
+	if inner == nil {
+		return
+	}
+	bad := ""
+	for _, b := range mc.Bindings {
+		a, ok := b.(*ssa.Alloc)
+		if !ok || inner.Body[a.Block()] {
+			continue
+		}
+		for blk := range inner.Body {
+			for _, ins := range blk.Instrs {
+				if s, ok := ins.(*ssa.Store); ok && s.Addr == ssa.Value(a) {
+					bad = a.Comment
+				}
+			}
+		}
+	}
+	fr0 := st.Frames[0]
+	goal := TTrue
+	if bad != "" {
+		goal = TFalse
+	}
+	ob := &Obligation{Name: fmt.Sprintf("%s/discipline/goroutine-owns-its-loop-variables@%s#%d", ex.fnName(fr0.Fn), shortName(ex.fnName(fn)), ex.eventOrdinal(ev)), Kind: "ghost", Goal: goal, Props: props, Fn: fr0.Fn.String(),
+		Note: "a goroutine started in a loop captures the loop variable " + bad + ", which the loop re-assigns (per-loop variable semantics before go 1.22)"}
+	ob.Pos = ex.Prog.Fset.Position(g.Pos())
+	ex.record(st, ob)
+}
